@@ -699,7 +699,14 @@ fn pou_close(lx: &mut Lx, host: usize) {
 fn pou_nt(host: usize, name: &str, vars: Vec<NT>, edge_vars: Vec<NT>, body: Vec<NT>) -> NT {
     match host {
         0 => n("FunctionBlock", vec![("name", s(name)), ("vars", l(vars)), ("edge_vars", l(edge_vars)), ("body", stmts_body(body))]),
-        1 => n("Program", vec![("name", s(name)), ("vars", l(vars)), ("access", l(vec![])), ("body", stmts_body(body))]),
+        // a PROGRAM's edge declarations (VAR_INPUT x : BOOL R_EDGE) are part of what was written
+        1 => {
+            let mut f = vec![("name", s(name)), ("vars", l(vars)), ("access", l(vec![])), ("body", stmts_body(body))];
+            if !edge_vars.is_empty() {
+                f.push(("edge_vars", l(edge_vars)));
+            }
+            n("Program", f)
+        }
         _ => n("Function", vec![("name", s(name)), ("returns", s("INT")), ("vars", l(vars)), ("edge_vars", l(edge_vars)), ("body", stmts_body(body))]),
     }
 }
